@@ -1,12 +1,150 @@
-(* C20 — property theorems only. Each is closed by `exact <lemma>` and followed by Print Assumptions. *)
-From Coq Require Import ZArith List.
-From GeosV.C20 Require Import Defs Hilbert.
+(* C20 — property theorems only. Each is closed by `exact <lemma>` and followed by Print Assumptions.
+   Models: Defs.v (R hull checker, S monotone chain, envelope fold, exact centroid, M normalize / compareTo / reverse / isCCW),
+   Gen/HC_*.v (generated from HilbertCode.cpp). Not proved (checked by brute force at run time only, "Tp"): that the
+   minimum over hull-edge directions is the minimum over ALL directions, that mbc_exact is the smallest enclosing
+   circle, that hull_mc satisfies check_hull, and uniqueness of an accepted hull cycle (check_hull_unique). *)
+From Coq Require Import ZArith List Bool Permutation Lia.
+From GeosV.C20 Require Import Defs Hilbert HullProofs CentroidProofs SortProofs CmpProofs RingProofs MeasureProofs NormProofs CheckerProofs.
 From GeosV.Gen Require Import HC_encode HC_decode.
 Import ListNotations.
 Local Open Scope Z_scope.
 
-(* Hilbert code (generated definitions): decode (encode (x,y)) = (x,y) for every cell of every level <= LEVEL_BOUND = 7 *)
+(* ---- convex hull: an accepted cycle is convex (strict left turns, every vertex in every edge's closed left half-plane),
+   contains every input vertex, and its corners are input vertices *)
+Theorem C20_check_hull_sound : forall pts h, check_hull pts h = true ->
+  convex_ccw h /\ (forall p, In p pts -> inside h p) /\ (forall v, In v h -> In v pts) /\ (h = [] <-> pts = []).
+Proof. exact check_hull_sound. Qed.
+Print Assumptions C20_check_hull_sound.
+
+(* ---- envelope: the fold bounds every vertex and each side is attained *)
+Theorem C20_envelope_tight : forall pts,
+  match envelope pts with None => pts = [] | Some e => bounds e pts /\ attained e pts end.
+Proof. exact envelope_tight. Qed.
+Print Assumptions C20_envelope_tight.
+
+(* ---- centroid: translation equivariance of the exact area- / length- / count-weighted mean with dimension fallback *)
+Theorem C20_centroid_translation : forall k t g kind nx ny d, centroid k g = Some (kind, nx, ny, d) ->
+  centroid k (translate t g) = Some (kind, nx + px t * d, ny + py t * d, d).
+Proof. exact centroid_translation. Qed.
+Print Assumptions C20_centroid_translation.
+
+(* ---- centroid: the triangle-fan sums of a closed ring do not depend on the base point (Centroid.cpp uses the first shell vertex) *)
+Theorem C20_centroid_fan_origin_independent : forall b b' r d, r <> [] -> hd d r = last r d -> fan b r = fan b' r.
+Proof. exact centroid_fan_origin_independent. Qed.
+Print Assumptions C20_centroid_fan_origin_independent.
+
+(* ---- compareTo is a total order with "equal keys => equal elements" on well-formed geometries *)
+Theorem C20_compareTo_total_order : forall g, Dc g -> good Dc cmp_geom g.
+Proof. exact good_cmp_geom. Qed.
+Print Assumptions C20_compareTo_total_order.
+
+(* ---- whatever sorted permutation std::sort returns, it is the same list *)
+Theorem C20_sorted_perm_unique : forall l1 l2, Forall Dc l1 -> Permutation l1 l2 -> dsorted cmp_geom l1 -> dsorted cmp_geom l2 -> l1 = l2.
+Proof. exact (sorted_perm_unique Dc cmp_geom good_cmp_geom). Qed.
+Print Assumptions C20_sorted_perm_unique.
+
+(* ---- normalize is idempotent (hypotheses: well-formed tree; every ring / closed curve has a unique minimum vertex and a
+   direction-determinate isCCW) *)
+Theorem C20_normalize_idempotent : forall g, Dc g -> norm_hyp g -> normalize (normalize g) = normalize g.
+Proof. exact normalize_idempotent. Qed.
+Print Assumptions C20_normalize_idempotent.
+(* ... and it is NOT idempotent without them — the same inputs fail in the implementation (known findings C20-F1, C20-F5) *)
+Theorem C20_normalize_idempotent_refuted :
+  exists r, norm_ring true (norm_ring true r) <> norm_ring true r /\ length (norm_ring true (norm_ring true r)) <> length r.
+Proof. exact norm_ring_idempotent_refuted. Qed.
+Print Assumptions C20_normalize_idempotent_refuted.
+Theorem C20_normalize_idempotent_refuted_bowtie : exists r, norm_ring true (norm_ring true r) <> norm_ring true r.
+Proof. exact norm_ring_idempotent_refuted_bowtie. Qed.
+Print Assumptions C20_normalize_idempotent_refuted_bowtie.
+
+(* ---- canonical form: geometries related by ring start, ring direction, hole order, element order (at any depth) have
+   the same normal form; side conditions are carried by the constructors of `variant` *)
+Theorem C20_normalize_canonical : forall a b, variant a b -> normalize a = normalize b.
+Proof. exact normalize_canonical. Qed.
+Print Assumptions C20_normalize_canonical.
+(* ring level, spelled out *)
+Theorem C20_normalize_ring_start : forall cw o, count_pt (min_coord o) o = 1%nat -> (2 <= length o)%nat ->
+  forall o', rot o o' -> norm_open cw o' = norm_open cw o.
+Proof. exact norm_open_rot. Qed.
+Print Assumptions C20_normalize_ring_start.
+Theorem C20_normalize_ring_direction : forall cw o, count_pt (min_coord o) o = 1%nat -> (2 <= length o)%nat -> orient_det o ->
+  forall o', rot (rev o) o' -> norm_open cw o' = norm_open cw o.
+Proof. exact norm_open_rev. Qed.
+Print Assumptions C20_normalize_ring_direction.
+(* ... refuted without the hypotheses (known findings C20-F5, C20-F6) *)
+Theorem C20_normalize_direction_refuted : exists r, norm_ring true (rev r) <> norm_ring true r.
+Proof. exact norm_ring_direction_refuted. Qed.
+Print Assumptions C20_normalize_direction_refuted.
+Theorem C20_normalize_start_refuted : exists o o', rot o o' /\ norm_open true o' <> norm_open true o.
+Proof. exact norm_ring_start_refuted. Qed.
+Print Assumptions C20_normalize_start_refuted.
+(* element order alone *)
+Theorem C20_normalize_element_order : forall l1 l2, Forall Dc l1 -> Permutation l1 l2 -> isort (desc cmp_geom) l1 = isort (desc cmp_geom) l2.
+Proof. exact (isort_perm_eq Dc cmp_geom good_cmp_geom). Qed.
+Print Assumptions C20_normalize_element_order.
+
+(* ---- reverse *)
+Theorem C20_reverse_involutive : forall g, reverse (reverse g) = g.
+Proof. exact reverse_involutive. Qed.
+Print Assumptions C20_reverse_involutive.
+Theorem C20_area2_reverse : forall r, shoelace (rev r) = - shoelace r.
+Proof. exact shoelace_rev. Qed.
+Print Assumptions C20_area2_reverse.
+
+(* ---- area, length (multiset of squared segment lengths), counts, dimension, emptiness: invariant under reverse and normalize
+   (clone is the identity of the model) *)
+Theorem C20_invariants_reverse : forall p g, area2 (reverse g) = area2 g /\ length_scaled p (reverse g) = length_scaled p g /\
+  Permutation (all_seg_d2s (reverse g)) (all_seg_d2s g) /\
+  num_coords (reverse g) = num_coords g /\ num_geoms_deep (reverse g) = num_geoms_deep g /\ dimension (reverse g) = dimension g /\ is_empty (reverse g) = is_empty g.
+Proof. intros p g. exact (conj (area2_reverse g) (conj (length_reverse p g) (conj (seg_lengths_reverse g) (counts_reverse g)))). Qed.
+Print Assumptions C20_invariants_reverse.
+Theorem C20_invariants_normalize : forall p g, norm_hyp g -> area2 (normalize g) = area2 g /\ length_scaled p (normalize g) = length_scaled p g /\
+  Permutation (all_seg_d2s (normalize g)) (all_seg_d2s g) /\
+  (num_coords (normalize g) = num_coords g /\ num_geoms_deep (normalize g) = num_geoms_deep g /\ dimension (normalize g) = dimension g) /\
+  is_empty (normalize g) = is_empty g.
+Proof.
+  intros p g H. exact (conj (area2_normalize g H) (conj (length_normalize p g H) (conj (seg_lengths_normalize g H) (conj (counts_normalize g H) (is_empty_normalize g H))))).
+Qed.
+Print Assumptions C20_invariants_normalize.
+(* the executable per-case test implies the ring hypothesis *)
+Theorem C20_ring_ok_hyp : forall r, ring_ok r = true -> is_closed r = true -> ring_hyp r.
+Proof. exact ring_ok_hyp. Qed.
+Print Assumptions C20_ring_ok_hyp.
+
+(* ---- brute-force checkers (Tp): sound, not proved minimal *)
+Theorem C20_mbc_check_sound : forall pts cx cy r sc einv, mbc_check pts cx cy r sc einv = true ->
+  (forall p, In p pts -> d2s cx cy sc p * einv * einv <= r * r * (einv + 1) * (einv + 1)) /\
+  (2 <= Z.of_nat (length (filter (fun p => r * r * (einv - 1) * (einv - 1) <=? d2s cx cy sc p * einv * einv) pts))).
+Proof. exact mbc_check_sound. Qed.
+Print Assumptions C20_mbc_check_sound.
+Theorem C20_min_width2_attained_partial : forall h w, (forall e, In e (edges h) -> fst e <> snd e) -> min_width2 h = Some w ->
+  exists e, In e (edges h) /\ w = edge_width2 h e /\ forall e', In e' (edges h) -> fle w (edge_width2 h e').
+Proof. exact min_width2_attained. Qed.
+Print Assumptions C20_min_width2_attained_partial.
+
+(* ---- Hilbert code (generated definitions), bounded: every level <= LEVEL_BOUND = 7 *)
 Theorem C20_hilbert_decode_encode : forall level x y, 0 <= level <= LEVEL_BOUND -> 0 <= x < 2 ^ level -> 0 <= y < 2 ^ level ->
   c_decode_2 level (c_encode_3 level x y) = (x, y) /\ 0 <= c_encode_3 level x y < 4 ^ level.
 Proof. exact hilbert_decode_encode. Qed.
 Print Assumptions C20_hilbert_decode_encode.
+Theorem C20_hilbert_encode_decode_adjacent : forall level i, 0 <= level <= LEVEL_BOUND -> 0 <= i < 4 ^ level - 1 ->
+  let '(x0, y0) := c_decode_2 level i in let '(x1, y1) := c_decode_2 level (i + 1) in
+  c_encode_3 level x0 y0 = i /\ Z.abs (x1 - x0) + Z.abs (y1 - y0) = 1.
+Proof. exact hilbert_encode_decode_adjacent. Qed.
+Print Assumptions C20_hilbert_encode_decode_adjacent.
+
+(* non-vacuity: the hypotheses of the conditional theorems are satisfiable and the models compute *)
+Example ex_hull : check_hull [(0,0); (4,0); (2,1); (4,4); (0,4); (2,0)] (hull_mc [(0,0); (4,0); (2,1); (4,4); (0,4); (2,0)]) = true.
+Proof. vm_compute. reflexivity. Qed.
+Example ex_norm_hyp : let g := GColl 7 [GPoint [(1,1)]; GLine [(5,5); (2,2)]; GPoly [(0,0); (4,0); (4,3); (0,0)] [[(2,1); (3,1); (3,2); (2,1)]]] in
+  Dc g /\ norm_hyp g /\ normalize g = GColl 7 [GPoly [(0,0); (4,3); (4,0); (0,0)] [[(2,1); (3,1); (3,2); (2,1)]]; GLine [(2,2); (5,5)]; GPoint [(1,1)]].
+Proof. split; [|split; [exact norm_hyp_ex|vm_compute; reflexivity]]. apply Dc_coll. split; [lia|]. split; [vm_compute; discriminate|]. repeat constructor; discriminate. Qed.
+Example ex_variant : variant (GPoly [(0,0); (4,0); (4,3); (0,0)] []) (GPoly [(4,3); (4,0); (0,0); (4,3)] []).
+Proof.
+  apply v_shell. right. exists [(0,0); (4,0); (4,3)], [(4,3); (4,0); (0,0)]. split; [reflexivity|]. split; [reflexivity|].
+  split; [vm_compute; reflexivity|]. split; [cbn; lia|]. right. split; [vm_compute; reflexivity|]. exists [], [(4,3); (4,0); (0,0)]. split; reflexivity.
+Qed.
+Example ex_centroid : centroid 8 (GPoly [(0,0); (6,0); (6,6); (0,6); (0,0)] []) = Some (2, 648, 648, 216).
+Proof. vm_compute. reflexivity. Qed.
+Example ex_hilbert : c_encode_3 3 5 6 = 39 /\ c_decode_2 3 39 = (5, 6).
+Proof. vm_compute. split; reflexivity. Qed.
